@@ -167,7 +167,7 @@ func load(o *options) *loaded {
 		}
 		ov[filepath.Join(o.repo, k[0])] = b
 	}
-	env := append(os.Environ(), "GOPROXY=off", "GOSUMDB=off", "GOTOOLCHAIN=local", "GOFLAGS=-mod=mod")
+	env := append(os.Environ(), "PATH=/opt/veriftools/go1.26.8/bin:"+os.Getenv("PATH"), "GOPROXY=off", "GOSUMDB=off", "GOTOOLCHAIN=local", "GOFLAGS=-mod=mod")
 	if o.modfile != "" {
 		env[len(env)-1] = "GOFLAGS=-mod=mod -modfile=" + o.modfile
 	}
@@ -645,6 +645,8 @@ func finish(o *options, sum *summary, t0 time.Time) {
 }
 
 func main() {
+	os.Setenv("PATH", "/opt/veriftools/go1.26.8/bin:"+os.Getenv("PATH"))
+	os.Setenv("GOTOOLCHAIN", "local")
 	if len(os.Args) < 2 {
 		fatal("usage: symgo run|worker [flags]")
 	}
